@@ -227,15 +227,23 @@ Detail(e, name) ==
     [] name = "C05_UpwindAlt" -> DiffOffsets(MatOf(o.Mupalt), MatOf(o.chain_upalt))
     [] OTHER -> {}
 
+\* one clause: <<holds, overflowed>> - register 7 tells whether the exact arithmetic left the
+\* 32-bit range while the clause was evaluated (then a FALSE is "undecided", not a verdict)
+Eval(e, n) == IF TLCSet(7, FALSE) /\ Holds(e, n) THEN <<TRUE, TLCGet(7)>> ELSE <<FALSE, TLCGet(7)>>
+EvalC(e, n) == IF TLCSet(7, FALSE) /\ Conforms(e, n) THEN <<TRUE, TLCGet(7)>> ELSE <<FALSE, TLCGet(7)>>
+
 Verdict(k) ==
   LET e == Trace[k]
-      failing == {n \in ToSet(e.wanted) : ~Holds(e, n)}
+      res == [n \in ToSet(e.wanted) |-> Eval(e, n)]
+      failing == {n \in DOMAIN res : ~res[n][1] /\ ~res[n][2]}
+      resC == [n \in ToSet(e.conform) |-> EvalC(e, n)]
   IN  [ep |-> e.id,
        failing |-> failing,
+       undecided |-> {n \in DOMAIN res : ~res[n][1] /\ res[n][2]},
        detail |-> [n \in failing |-> Detail(e, n)],
-       nonconf |-> {n \in ToSet(e.conform) : ~Conforms(e, n)}]
+       nonconf |-> {n \in DOMAIN resC : ~resC[n][1] /\ ~resC[n][2]}]
 
-Init == i = 0
+Init == i = 0 /\ TLCSet(7, FALSE)
 Next == /\ i < Len(Trace)
         /\ i' = i + 1
         /\ PrintT("@@ " \o ToJson(Verdict(i')))
